@@ -250,8 +250,8 @@ class Interp:
             slot = (k[0], k[2], k[3])
             sh = min(i["shift"] for i in infos)
             # judged only if the source stepped and the destination stepped late enough to see that output
-            due = any(td >= ts + sh + (1 if any(i["kind"] == "weak" for i in infos) else 0)
-                      for ts in stepped.get(k[0], []) for td in stepped.get(k[2], []))
+            # (a strictly later integer time: within one time the source may run at a later sub-step)
+            due = any(td >= ts + sh + 1 for ts in stepped.get(k[0], []) for td in stepped.get(k[2], []))
             if slot not in seen and due:
                 self.fails.append(Failure("C11.missing_dataflow", "C11.missing_dataflow",
                                           f"accepted pair {k} {infos} never delivered a value to {k[2]}"))
